@@ -546,3 +546,80 @@ Proof.
   - cbn. lia.
   - unfold ghost_run. cbn [fold_left]. apply ghost_step_short. reflexivity.
 Qed.
+
+(* ---------- the whole outage on the pipeline ---------- *)
+Lemma silent_typed ops : Forall silent_op ops -> Forall op_typed ops.
+Proof. induction 1 as [|o ops Ho _ IH]; constructor; [destruct o; try contradiction; exact I|exact IH]. Qed.
+
+Lemma quiet_typed ops : Forall quiet_op ops -> Forall op_typed ops.
+Proof. induction 1 as [|o ops Ho _ IH]; constructor; [destruct o; try contradiction; exact I|exact IH]. Qed.
+
+Lemma block_step_band h p p' : block_step h p = Ok p' ->
+  b_msg (p_band p') = b_msg (p_band p) /\ b_block (p_band p') = b_block (p_band p) /\
+  b_valid (p_band p') = b_valid (band_begin_block h (p_band p)) /\
+  b_dheight (p_band p') = b_dheight (band_begin_block h (p_band p)) /\
+  p_assets p' = p_assets p.
+Proof.
+  unfold block_step. destruct (begin_block _ _ _) as [[s' d]| |]; try discriminate.
+  intros H. injection H as <-. cbn [p_band p_assets set_dbool b_msg b_block b_valid b_dheight].
+  rewrite band_bb_msg, band_bb_block. repeat split.
+Qed.
+
+Theorem outage_pipeline p gs h0 mid r post h1 :
+  PInv p gs -> AssetsOk (p_assets p) ->
+  b_block (p_band p) <> 0 -> b_check (p_band p) = true -> b_dheight (p_band p) < 0 ->
+  b_last (p_band p) = b_temp (p_band p) ->
+  0 < h0 -> h0 mod 20 = 0 -> h1 mod 20 = 0 ->
+  Forall silent_op mid -> Forall quiet_op post -> r <> b_last (p_band p) ->
+  let m := b_msg (p_band p) in
+  exists p1 gs1 p2,
+    prun_g p gs (Block h0 :: mid ++ Ack r :: post) = Ok (p1, gs1) /\
+    b_dheight (p_band p1) = h0 /\ b_valid (p_band p1) = false /\
+    pstep p1 (Block h1) = Ok p2 /\ PInv p2 (pghost p1 gs1 (Block h1)) /\
+    b_msg (p_band p2) = m /\ b_valid (p_band p2) = true /\ b_dheight (p_band p2) = -1 /\
+    block_ops h1 p1 =
+      (if h1 - h0 >=? f_gap m then map (fun id => (id, DiscardReset)) (map fst (p_store p1)) else [])
+      ++ bb_samples h1 (lookup_result (b_results (p_band p1)) r) (p_assets p1) (-1) /\
+    (h1 - h0 >= f_gap m -> forall id, sget (p_store p1) id <> None ->
+       (length (g_hist (gget (pghost p1 gs1 (Block h1)) id)) <= 1)%nat /\
+       (2 <= f_n m -> forall tw, sget (p_store p2) id = Some tw -> active tw = false)).
+Proof.
+  intros HP HA Hb Hc Hd Hl Hh Hm0 Hm1 Hmid Hpost Hr m.
+  assert (Hty : Forall op_typed (Block h0 :: mid ++ Ack r :: post)).
+  { constructor; [exact I|]. apply Forall_app. split; [apply silent_typed; exact Hmid|].
+    constructor; [exact I|apply quiet_typed; exact Hpost]. }
+  destruct (prun_g_inv _ p gs Hty HP) as (p1 & gs1 & Hrun & HP1).
+  pose proof (prun_of_prun_g _ _ _ _ _ Hrun) as Hrun'.
+  assert (Hdb : b_dbool (p_band p) = false) by (destruct HP as (H & _); exact H).
+  destruct (outage_run p h0 mid r post Hb Hc Hd Hl Hdb Hh Hm0 Hmid Hpost Hr) as (p1' & Hr1 & HPend).
+  rewrite Hrun' in Hr1. injection Hr1 as <-.
+  pose proof (prun_assets_ok _ _ _ Hrun' HA) as HA1.
+  destruct (pstep_inv p1 gs1 (Block h1) I HP1) as (p2 & Hs2 & HP2).
+  destruct (pending_check h0 m (b_last (p_band p)) r h1 (p_band p1) Hh Hr Hm1 HPend)
+    as (Hv & Hdh & _ & _ & _ & _ & _ & _).
+  pose proof Hs2 as Hs2'. cbn [pstep] in Hs2'.
+  destruct (block_step_band _ _ _ Hs2') as (Hmsg2 & _ & Hv2 & Hdh2 & _).
+  assert (Hm2 : b_msg (p_band p2) = m).
+  { rewrite Hmsg2. destruct HPend as (_ & _ & _ & _ & _ & _ & _ & Hmm). exact Hmm. }
+  exists p1, gs1, p2. split; [exact Hrun|].
+  split; [destruct HPend as (_ & _ & H & _); exact H|].
+  split; [destruct HPend as (_ & _ & _ & _ & _ & H & _); exact H|].
+  split; [exact Hs2|]. split; [exact HP2|]. split; [exact Hm2|].
+  split; [rewrite Hv2; exact Hv|]. split; [rewrite Hdh2; exact Hdh|].
+  split; [apply (pending_block_ops h0 m (b_last (p_band p)) r h1 p1 Hh Hr Hm1 HPend)|].
+  intros Hge id Hin.
+  pose proof (wipe_block_hist h0 m (b_last (p_band p)) r h1 p1 gs1 id Hh Hr Hm1 HPend Hge HA1 Hin) as Hlen.
+  split; [exact Hlen|]. intros Hn2 tw Hg.
+  destruct HP2 as (_ & _ & _ & HI2 & _). specialize (HI2 id). rewrite Hg, Hm2 in HI2. destruct HI2 as [HI2 _].
+  destruct (active tw) eqn:Ea; [|reflexivity].
+  pose proof (inv_activation _ _ _ HI2 Ea) as Hact. unfold zlen in Hact. lia.
+Qed.
+
+(* every state reachable from genesis satisfies the invariant and has consecutive asset ids *)
+Theorem reachable_inv ops : Forall op_typed ops ->
+  exists p gs, prun_g pinit [] ops = Ok (p, gs) /\ PInv p gs /\ AssetsOk (p_assets p).
+Proof.
+  intros Ht. destruct (prun_g_inv ops pinit [] Ht pinv_init) as (p & gs & Hr & HP).
+  exists p, gs. split; [exact Hr|]. split; [exact HP|].
+  apply (prun_assets_ok ops pinit p (prun_of_prun_g _ _ _ _ _ Hr)). reflexivity.
+Qed.
